@@ -98,6 +98,7 @@ type fnCtx struct {
 }
 
 type frame struct {
+	lastMapRange, lastMapRangeKS, lastMapDom0 string // the map iterator most recently created in this frame
 	evalPos token.Pos // source position of the call site being asserted (incase)
 	fc       *fnCtx
 	fn       *ssa.Function
